@@ -126,6 +126,14 @@ func (c *c20Case) registerOn(rec *c20Rec,
 		if at(h.Out, n, true) {
 			return nil
 		}
+		// any error stops the loop, whatever its kind: a plain one, or one wrapping the error of a
+		// context of the handler's own (a downstream call that timed out or was cancelled)
+		switch (n + i + k) % 3 {
+		case 1:
+			return fmt.Errorf("handler: downstream call: %w", context.DeadlineExceeded)
+		case 2:
+			return fmt.Errorf("handler: downstream call: %w", context.Canceled)
+		}
 		return errHandler
 	}
 	for i, h := range c.Tables[0] {
